@@ -8,7 +8,10 @@ from lib import progs
 RULE = ("random circuits over 1-6 modes (thorough: 1-9), 0-14 commands from all gate/channel/preparation/"
         "measurement families incl. measured-parameter dependencies; thorough additionally enumerates every "
         "sequence of <=3 letters of a 24-letter alphabet on 3 modes.  A case is non-trivial when it has >=2 "
-        "commands sharing a wire and >=1 independent pair; distinct = distinct (function, spec) pairs.")
+        "commands sharing a wire and >=1 independent pair; distinct = distinct (function, spec) pairs.  "
+        "Plus hybrid circuits (1-4 modes, 2-14 commands, exactly cancelling Gaussian blocks between non-Gaussian gates) "
+        "compiled with 'gaussian_merge': order, presence and placement of the commands it hands through are judged by "
+        "the Python order check (the merge surgery itself is modelled and proved under C11).")
 ASSUMPTIONS = ["NetworkX topological sorts are only trusted to return a list; every returned list is validated "
                "by the proved checkers isLinExt/isLegal and by an independent Python order check",
                "merging Fock measurements of disjoint modes into one is semantically neutral (physical assumption)"]
@@ -209,10 +212,116 @@ def corpus_specs():
     ]
 
 
+GM_GAUSS1 = ["Rgate", "Sgate", "Dgate", "Xgate", "Zgate", "Pgate", "Fouriergate"]
+GM_GAUSS2 = ["BSgate", "S2gate", "MZgate", "CXgate", "CZgate"]
+GM_NONG1 = ["Vgate", "Kgate"]
+GM_PRIMITIVE_GAUSS = ("Dgate", "Sgate", "Rgate", "BSgate", "S2gate", "MZgate")
+
+
+def gen_hybrid(rng):
+    """hybrid circuit for the 'gaussian_merge' compiler: Gaussian gates between non-Gaussian ones, with blocks that
+    cancel exactly (G; G.H and G(z); G(-z)) so that a merge removes commands without replacing them"""
+    n = rng.randint(1, 4)
+    ops_ = []
+    for _ in range(rng.randint(2, 10)):
+        u = rng.random()
+        if u < 0.45:
+            cls = rng.choice(GM_GAUSS1); regs = [rng.randrange(n)]
+        elif u < 0.65 and n >= 2:
+            cls = rng.choice(GM_GAUSS2); regs = rng.sample(range(n), 2)
+        elif u < 0.9 or n < 2:
+            cls = rng.choice(GM_NONG1); regs = [rng.randrange(n)]
+        else:
+            cls = "CKgate"; regs = rng.sample(range(n), 2)
+        npar = dict(progs.ONE_GATES, **progs.TWO_GATES)[cls]
+        op = dict(cls=cls, regs=regs, pars=progs.rand_pars(rng, cls, npar, [], 0.0))
+        if rng.random() < 0.2:
+            op["dagger"] = True
+        ops_.append(op)
+    for _ in range(rng.choice([0, 1, 1, 2])):       # cancelling blocks
+        two = n >= 2 and rng.random() < 0.4
+        cls = rng.choice(["BSgate", "S2gate", "MZgate"] if two else ["Rgate", "Sgate", "Dgate", "Fouriergate", "Xgate"])
+        regs = rng.sample(range(n), 2) if two else [rng.randrange(n)]
+        npar = dict(progs.ONE_GATES, **progs.TWO_GATES)[cls]
+        g = dict(cls=cls, regs=regs, pars=progs.rand_pars(rng, cls, npar, [], 0.0))
+        inv = dict(g, pars=list(g["pars"]))
+        if g["pars"] and cls != "MZgate" and rng.random() < 0.5:
+            inv["pars"][0] = -inv["pars"][0]
+        else:
+            inv["dagger"] = True
+        t = rng.randint(0, len(ops_))
+        ops_[t:t] = [g, inv]
+    if rng.random() < 0.3:
+        ops_.append(dict(cls="MeasureFock", regs=rng.sample(range(n), rng.randint(1, n)), pars=[]))
+    return dict(n=n, ops=ops_)
+
+
+def check_gaussian_merge(ctx, sf, spec):
+    """'gaussian_merge': commands it does not merge are handed through as they are, so (a) any two of them sharing a mode
+    keep their order, (b) none is lost or duplicated unless it is a Gaussian gate (merged), and (c) a new command acts on a
+    mode only between the two surviving neighbours on that mode between which the source had a Gaussian gate"""
+    import strawberryfields.program_utils as pu
+    prog, cmds = progs.build(spec)
+    rp = dict(kind="gm", spec=spec)
+    ctx.oracle_cases += 1
+    try:
+        out = prog.compile(compiler="gaussian_merge").circuit
+    except pu.CircuitError:
+        ctx.tally("gm:circuit-error")
+        return
+    except Exception as e:  # noqa: BLE001
+        ctx.fail("gm-raises", f"compile(compiler='gaussian_merge') raised {type(e).__name__}: {e}", rp)
+        return
+    ident = {id(c): i for i, c in enumerate(cmds)}
+    out_ids = [ident.get(id(c), -1) for c in out]
+    surv = [i for i in out_ids if i >= 0]
+    gauss = lambda i: spec["ops"][i]["cls"] in GM_GAUSS1 + GM_GAUSS2
+    ctx.count("gaussian_merge", ["gm", spec], len(surv) >= 2 and len(surv) < len(cmds), sample=dict(spec=spec, out=out_ids))
+    ctx.tally("gm:merged" if len(surv) < len(cmds) else "gm:nothing-merged")
+    if -1 not in out_ids and len(out) < len(cmds):
+        ctx.tally("gm:cancelled-block-removed")
+    why = None
+    if len(set(surv)) != len(surv):
+        why = "a command appears twice"
+    lost = [i for i in range(len(cmds)) if i not in surv and not gauss(i)]
+    if not why and lost:
+        why = f"non-Gaussian commands {lost} are missing from the compiled circuit"
+    if not why:
+        why_ = py_respects(spec, surv, sorted(surv))
+        if why_:
+            why = why_
+    if not why:
+        w = wires_of(spec)
+        for m in range(spec["n"]):
+            src_seg, seg = {}, 0               # segment number on mode m -> does the source have a Gaussian gate there?
+            for i in range(len(cmds)):
+                if m in w[i]:
+                    if i in surv:
+                        seg += 1
+                    elif gauss(i):
+                        src_seg[seg] = True
+            # a surviving Gaussian gate (not merged with anything) also counts for the segments on both sides of it
+            seg = 0
+            for c, i in zip(out, out_ids):
+                if i >= 0:
+                    if m in w[i]:
+                        seg += 1
+                elif m in [r.ind for r in c.reg] and not src_seg.get(seg):
+                    why = (f"a new {type(c.op).__name__} acts on mode {m} after {seg} surviving commands of that mode, "
+                           f"where the source has no merged Gaussian gate")
+                    break
+            if why:
+                break
+    if why:
+        ctx.fail("gaussian-merge-order", f"gaussian_merge: {why}", dict(rp, out=out_ids))
+
+
 def run(ctx, sf):
     reqs, pending = [], []
     for spec in corpus_specs():
         check_spec(ctx, sf, spec, reqs, pending)
+    for k in range(ctx.n(400, 4000)):
+        check_gaussian_merge(ctx, sf, gen_hybrid(ctx.rng))
     rng = ctx.rng
     nmax = 6 if ctx.tier == "quick" else 9
     for k in range(ctx.n(1000, 8000)):
@@ -245,6 +354,9 @@ def search(ctx, sf):
 def replay(ctx, rp):
     reqs, pending = [], []
     n0 = len(ctx.failures)
+    if rp.get("kind") == "gm":
+        check_gaussian_merge(ctx, sf_mod(), rp["spec"])
+        return len(ctx.failures) > n0
     check_spec(ctx, sf_mod(), rp["spec"], reqs, pending, tuple(rp.get("marked", ("MeasureFock",))))
     return len(ctx.failures) > n0
 
